@@ -226,6 +226,10 @@ func run(sum *lib.Summary) {
 		"non-trivial = the program contains at least one write, call of a non-view function, mutating built-in, emit, destroy or attach inside view-checked code, " +
 		"or is accepted and executed; distinct = distinct program text"
 	distinct := map[string]bool{}
+	// every built-in the checker declares view, executed from a user view function (see builtin_mon.go)
+	if *only == "" {
+		builtinMonitors(sum)
+	}
 	var cases []*Case
 	cases = append(cases, corpusCases()...)
 	if files, _ := filepath.Glob(filepath.Join(*corpus, "case_*.json")); len(files) > 0 {
